@@ -188,10 +188,10 @@ class HybridCache(_CacheBase):
         total_access_count = sum(self._access_counts.values())
         total_duration = sum(self._computation_durations.values())
         normalized_access_counts = {
-            k: v / total_access_count for k, v in self._access_counts.items()
+            k: v / (total_access_count or 1) for k, v in self._access_counts.items()
         }
         normalized_durations = {
-            k: v / total_duration for k, v in self._computation_durations.items()
+            k: v / (total_duration or 1) for k, v in self._computation_durations.items()
         }
 
         # Calculate scores using a weighted sum
